@@ -56,7 +56,7 @@ def resolve_shared(P, f, expr, at_node, depth=0):
             defs = f.rd.at(at_node, name)
             outs = set()
             for d in defs:
-                if d.kind in ('assign', 'walrus') and d.value is not None and isinstance(d.value, (ast.Name, ast.Attribute)):
+                if d.kind in ('assign', 'walrus') and d.value is not None and isinstance(d.value, (ast.Name, ast.Attribute, ast.Call)):
                     r = resolve_shared(P, f, d.value, d.node, depth + 1)
                     if r:
                         outs.add(r)
@@ -103,6 +103,19 @@ def resolve_shared(P, f, expr, at_node, depth=0):
                                       (isinstance(v, ast.Call) and (dotted(v.func) or '') in MUTABLE_CTORS)):
                     if not _assigned_on_instances(P, k, expr.attr):
                         return f'classattr:{k.fq}.{expr.attr}'
+        return None
+    if isinstance(expr, ast.Call):
+        # Class.get('name') of the configuration holders / getattr(Class, 'name'): the class-level default object itself
+        fn = expr.func
+        cls_e = key = None
+        if isinstance(fn, ast.Attribute) and fn.attr == 'get' and expr.args and isinstance(expr.args[0], ast.Constant) and isinstance(expr.args[0].value, str):
+            cls_e, key = fn.value, expr.args[0].value
+        elif isinstance(fn, ast.Name) and fn.id == 'getattr' and len(expr.args) >= 2 and isinstance(expr.args[1], ast.Constant) and isinstance(expr.args[1].value, str):
+            cls_e, key = expr.args[0], expr.args[1].value
+        if cls_e is not None and isinstance(cls_e, (ast.Name, ast.Attribute)):
+            r = resolve_shared(P, f, cls_e, at_node, depth + 1)
+            if r and r.startswith('class:'):
+                return f'classattr:{r[6:]}.{key}'
         return None
     return None
 
@@ -446,6 +459,17 @@ def shared_classes(P, root='ombott.ombott:Ombott'):
                                         tl.setdefault(c.fq, set()).add(t_.attr)
                                     elif r[1] not in out:
                                         out.append(r[1])
+        # what a shared object of the router package builds in any of its methods and keeps (routes, per-method records) lives as long as it does
+        if c.module.name.startswith('ombott.router'):
+            for m_ in c.methods.values():
+                if isinstance(m_.node, ast.Lambda):
+                    continue
+                for x in walk_shallow(m_.node):
+                    if isinstance(x, ast.Call):
+                        r = P.resolve_name(m_.module, dotted(x.func) or '')
+                        if r and r[0] == 'class' and r[1].module.name.startswith('ombott.router') and r[1] not in out \
+                                and not any(b.name in ('Exception', 'BaseException') or b.name.endswith('Error') for b in P.mro(r[1])):
+                            out.append(r[1])
     return out, tl
 
 
